@@ -714,6 +714,11 @@ def rule_cs_width(cx, rep, port):
                         rep.holds(key, r, 'advances by the delimiter length')
                     else:
                         rep.undecided(key, r, 'position arithmetic not recognised')
+        # the line is cut left to right: every search for the delimiter finds its leftmost occurrence from the current position
+        for x in walk_no_nested(fd):
+            if isinstance(x, ast.Call) and isinstance(x.func, ast.Attribute) and x.func.attr in ('rfind', 'rindex', 'lastIndexOf') and is_name(x.func.value, src) and x.args and is_name(x.args[0], dlm):
+                n += 1
+                rep.violated('{}: `{}`'.format(fname, node_text(x, 60)), x, 'the delimiter is searched from the right: for a delimiter that overlaps itself (`::` in `a:::b`, two blanks in a run of blanks) the rightmost occurrence is not where the left-to-right scan cuts, so the same line splits differently (and differently from the other port)')
         # any other arithmetic on a position at which the delimiter was found
         dpos = set()
         for a in walk_no_nested(fd):
